@@ -208,7 +208,7 @@ impl<T: ArrayValue> Array<T> {
         let fill = env.ctx().scalar_fill::<T>();
         let has_fill = fill.is_ok();
         let was_scalar = self.rank() == 0;
-        let axes = derive_shape(&self.shape, dims, has_fill, env)?;
+        let axes = derive_shape::<T>(&self.shape, dims, has_fill, env)?;
         if (axes.first()).is_none_or(|&d| d.unsigned_abs() != self.row_count()) {
             self.meta.take_map_keys();
         }
@@ -268,7 +268,7 @@ impl<T: ArrayValue> Array<T> {
     }
 }
 
-fn derive_shape(
+fn derive_shape<T>(
     shape: &[usize],
     dims: &[Result<isize, bool>],
     has_fill: bool,
@@ -283,6 +283,16 @@ fn derive_shape(
     let derive_len = |data_len: usize, other_len: usize| {
         (if has_fill { f32::ceil } else { f32::floor }(data_len as f32 / other_len as f32) as isize)
     };
+    // The product of the given dimensions, which must not overflow
+    let dims_len = |dims: &[Result<isize, bool>]| -> UiuaResult<usize> {
+        let dims = dims.iter().flatten().map(|dim| dim.unsigned_abs());
+        (dims.clone().try_fold(1usize, |acc, dim| acc.checked_mul(dim))).ok_or_else(|| {
+            env.error(SizeError {
+                elements: dims.map(|dim| dim as f64).product(),
+                elem_size: size_of::<T>(),
+            })
+        })
+    };
     Ok(match inf_count {
         0 => dims.iter().map(|dim| dim.unwrap()).collect(),
         1 => {
@@ -291,8 +301,7 @@ fn derive_shape(
                 if dims[1..].iter().any(|&dim| dim.is_err()) {
                     return Err(env.error("Cannot reshape array with multiple infinite dimensions"));
                 }
-                let shape_non_leading_len =
-                    dims[1..].iter().flatten().product::<isize>().unsigned_abs();
+                let shape_non_leading_len = dims_len(&dims[1..])?;
                 if shape_non_leading_len == 0 {
                     return Err(env.error("Cannot reshape array with any 0 non-leading dimensions"));
                 }
@@ -307,7 +316,7 @@ fn derive_shape(
                     return Err(env.error("Cannot reshape array with multiple infinite dimensions"));
                 }
                 let mut axes: Vec<isize> = dims.iter().copied().flatten().collect();
-                let shape_non_trailing_len = axes.iter().copied().product::<isize>().unsigned_abs();
+                let shape_non_trailing_len = dims_len(dims)?;
                 if shape_non_trailing_len == 0 {
                     return Err(
                         env.error("Cannot reshape array with any 0 non-trailing dimensions")
@@ -323,12 +332,12 @@ fn derive_shape(
                 let rev = back[0].unwrap_err();
                 let rev_mul = if rev { -1 } else { 1 };
                 let back = &back[1..];
-                let front_len = front.iter().flatten().product::<isize>().unsigned_abs();
-                let back_len = back.iter().flatten().product::<isize>().unsigned_abs();
+                let front_len = dims_len(front)?;
+                let back_len = dims_len(back)?;
                 if front_len == 0 || back_len == 0 {
                     return Err(env.error("Cannot reshape array with any 0 outer dimensions"));
                 }
-                let middle_len = rev_mul * derive_len(shape.iter().product(), front_len * back_len);
+                let middle_len = rev_mul * derive_len(shape.iter().product(), dims_len(dims)?);
                 let mut axes: Vec<isize> = front.iter().copied().flatten().collect();
                 axes.push(middle_len);
                 axes.extend(back.iter().flatten());
